@@ -41,7 +41,7 @@ func init() {
 				Old: "\t\t\tif ep.NodeName == nil {\n\t\t\t\tcontinue", New: "\t\t\tif ep.NodeName == nil {\n\t\t\t\tbreak", Expect: "ELIGIBLE"},
 			{Name: "unknown-network-status-counts-as-unavailable", File: "internal/k8s/nodes/nodes.go",
 				Old: "== corev1.ConditionTrue", New: "!= corev1.ConditionFalse", Expect: "NODE-NETWORK"},
-			c04Mutants[3], c04Mutants[4], c04Mutants[7], c04Mutants[8],
+			c04MutantNamed("sort-removed"), c04MutantNamed("comparator-uses-mynode"), c04MutantNamed("winner-is-last"), c04MutantNamed("hash-cache-by-position"),
 			c04MutantNamed("speaker-scan-stops-at-unavailable-node"),
 			{Name: "key-includes-service-name", File: "speaker/layer2_controller.go",
 				Old: "ipString := toAnnounce[0].String()", New: "ipString := toAnnounce[0].String() + name", Expect: "ELECTION"},
@@ -108,6 +108,8 @@ var c04Mutants = []Mutant{
 }
 
 func runC04(p *chk.Prog, r *chk.Report) {
+	// an advertisement is dropped as a duplicate only of one with the same node set (ADV-DEDUP, shared with C08, C12)
+	c08Dedup(p, r)
 	// the advertisements applied are those of the pool that owns the addresses now (POOL-CURRENT, shared with C09)
 	c09PoolCurrent(p, r)
 	handlerReadonlyRule(p, r)
@@ -762,6 +764,43 @@ func c04Eligible(p *chk.Prog, r *chk.Report) {
 						}
 					}
 					if retOK && collect != nil && g.Dominated(apps[0], alive) && g.Dominated(apps[0], hosting) && g.AfterLoop(apps[0], collect) {
+						okSpeaker = true
+					}
+				}
+			}
+			if !okSpeaker {
+				// or drawn from the hosting set itself: every collected node that has a live speaker, once the set is complete
+				hset := func(e ast.Expr) bool {
+					if ne.SameExpr(e, setOf[s.Node]) {
+						return true
+					}
+					so, eo := ne.ObjOf(setOf[s.Node]), ne.ObjOf(e)
+					return so != nil && eo != nil && flowSources(ne, eo)[so]
+				}
+				for _, rs := range ne.RangeLoops(hset) {
+					node := rangeKey(ne, rs)
+					apps := g.Find(func(n ast.Node) bool {
+						return chk.InBody(rs, n) && ne.IsAssignPat("R", "append(R, N)", chk.H("N", node))(n)
+					})
+					if len(apps) != 1 {
+						continue
+					}
+					alive := chk.GAnyOf(g.GPat(true, "SP[N]", chk.H("SP", isParam(ne, "speakers")), chk.H("N", node)),
+						chk.GBool(true, definedBy(g, "SP[N]", chk.H("SP", isParam(ne, "speakers")), chk.H("N", node))))
+					res := ne.ObjOf(apps[0].Node.(*ast.AssignStmt).Lhs[0])
+					retOK := res != nil
+					for _, rt := range g.Returns() {
+						if rr := retResults(rt); len(rr) != 1 || ne.ObjOf(rr[0]) != res {
+							retOK = false
+						}
+					}
+					var collect *ast.RangeStmt
+					for l := ne.LoopOf(s.Node); l != nil; l = ne.LoopOf(l) {
+						if lrs, isRs := l.(*ast.RangeStmt); isRs {
+							collect = lrs
+						}
+					}
+					if retOK && collect != nil && g.Dominated(apps[0], alive) && g.AfterLoop(apps[0], collect) {
 						okSpeaker = true
 					}
 				}
